@@ -51,9 +51,18 @@ RECURSIVE ChunkIds(_)
 ChunkIds(n) == IF n = 0 THEN <<>> ELSE ChunkIds(n - 1) \o (IF PlanAt(n) = "c" THEN <<n>> ELSE <<>>)
 TaskErr == CASE task = "done" -> "TaskDone" [] task = "stopped" -> "TaskStopped" [] task = "failed" -> "TaskFailed" [] OTHER -> "?"
 
+Rep(x, n) == [i \in 1..n |-> x]
+\* the order in which one call touches the boundary: read the file (or pull the scripted producer), write to the consumer,
+\* close the file, log the failure, unregister from the consumer, log a failing unregister, fire the Deferred, forward
+\* stopProducing, register with the consumer.  In particular FileSender unregisters BEFORE it fires its Deferred and
+\* FileBodyProducer closes the file BEFORE it fires.
+Order(w, reads, fired, cl, un, ps, rg, lg) ==
+    Rep("read", Len(reads)) \o Rep("write", Len(w)) \o Rep("close", cl) \o Rep("log", IF lg >= 1 THEN 1 ELSE 0)
+    \o Rep("unreg", un) \o Rep("log", IF lg >= 2 THEN 1 ELSE 0) \o Rep("fire", Len(fired)) \o Rep("pstop", ps)
+    \o Rep("reg", Len(rg))
 L(e, res, w, reads, fired, cl, un, ps, rg, lg, p) ==
     [e |-> e, res |-> res, w |-> w, reads |-> reads, fired |-> fired, closes |-> cl, unreg |-> un, pstop |-> ps,
-     reg |-> rg, logged |-> lg, p |-> p]
+     reg |-> rg, logged |-> lg, p |-> p, seq |-> Order(w, reads, fired, cl, un, ps, rg, lg)]
 
 InitWith(c) ==
     /\ cfg = c /\ started = FALSE /\ task = "none" /\ pc = 0 /\ ri = 0 /\ closed = FALSE /\ closes = 0
